@@ -180,7 +180,10 @@ def _split_names(names):
 
 @memoize
 def _format_name(names, n, format):
-    name = _split_names(names)[n - 1]
+    split_names = _split_names(names)
+    if not 1 <= n <= len(split_names):
+        raise BibTeXError(u'there is no name #{0} in "{1}"'.format(n, names))
+    name = split_names[n - 1]
     return format_bibtex_name(name, format)
 
 
